@@ -575,3 +575,40 @@ mutant('C17', 'export-mapping-misses-current', EXP, "        'electric current':
 mutant('C17', 'contact-flag-drops-face-width+flat-keys', MB, "return (self.__module is not None) and \\\n            (self.__face_width is not None) and \\\n            (self.__elastic_modulus is not None)", "return (self.__module is not None) and \\\n            (self.__elastic_modulus is not None)", None) if False else None
 benign('C17', 'recorder-uses-properties', MB, "        self.__time_variables['torque'].append(self.__torque)\n", "        self.__time_variables['torque'].append(self.torque)\n")
 benign('C17', 'worm-recorder-guard-inlined', WG, "        if self.tangential_force_is_computable:\n            self.time_variables['tangential force'].append(", "        if self.reference_diameter is not None:\n            self.time_variables['tangential force'].append(")
+
+# ------------------------------------------------------------------------------------------ C18
+mutant('C18', 'pwm-column-unguarded (pre-fix shape)', PT, "                if 'pwm' in variables:\n                    interpolation_function = interp1d(\n                        x=[instant.to('sec').value for instant in self.time],\n                        y=element.time_variables['pwm']\n                    )\n                    data.loc[element.name, 'pwm'] = interpolation_function(\n                        target_time.to('sec').value\n                    ).take(0)", "                interpolation_function = interp1d(\n                    x=[instant.to('sec').value for instant in self.time],\n                    y=element.time_variables['pwm']\n                )\n                data.loc[element.name, 'pwm'] = interpolation_function(\n                    target_time.to('sec').value\n                ).take(0)", 'C18.own-guard')
+mutant('C18', 'stress-nested-under-force (pre-fix shape)', PT, """                    unit_list.append(force_unit)
+                if isinstance(element, GearBase):
+                    if element.bending_stress_is_computable and \\
+                            'bending stress' in variables:
+                        variable_list.append('bending stress')
+                        unit_list.append(stress_unit)
+                    if element.contact_stress_is_computable and \\
+                            'contact stress' in variables:
+                        variable_list.append('contact stress')
+                        unit_list.append(stress_unit)
+""", """                    unit_list.append(force_unit)
+                    if isinstance(element, GearBase):
+                        if element.bending_stress_is_computable and \\
+                                'bending stress' in variables:
+                            variable_list.append('bending stress')
+                            unit_list.append(stress_unit)
+                            if element.contact_stress_is_computable and \\
+                                    'contact stress' in variables:
+                                variable_list.append('contact stress')
+                                unit_list.append(stress_unit)
+""", 'C18.own-guard')
+mutant('C18', 'current-under-pwm-selection', PT, "                if 'electric current' in variables:\n                    if element.electric_current_is_computable:", "                if 'electric current' in variables and 'pwm' in variables:\n                    if element.electric_current_is_computable:", 'C18.own-guard')
+mutant('C18', 'unit-lists-swapped', PT, "                    torque_unit,\n                    driving_torque_unit,\n                    load_torque_unit\n                ]", "                    torque_unit,\n                    load_torque_unit,\n                    driving_torque_unit\n                ]", 'C18.pairing')
+mutant('C18', 'stress-appended-with-force-unit', PT, "                        variable_list.append('bending stress')\n                        unit_list.append(stress_unit)", "                        variable_list.append('bending stress')\n                        unit_list.append(force_unit)", 'C18.pairing')
+mutant('C18', 'current-label-unit-fixed', PT, "                            f'electric current ({current_unit})'", "                            f'electric current (A)'", 'C18.pairing')
+mutant('C18', 'interp-previous', PT, "                    interpolation_function = interp1d(\n                        x=[instant.to('sec').value for instant in self.time],\n                        y=[\n                            value.to(unit).value\n                            for value in element.time_variables[variable]\n                        ]\n                    )", "                    interpolation_function = interp1d(\n                        x=[instant.to('sec').value for instant in self.time],\n                        y=[\n                            value.to(unit).value\n                            for value in element.time_variables[variable]\n                        ],\n                        kind='previous'\n                    )", 'C18.interp', nth=0)
+mutant('C18', 'query-in-ms', PT, "                        interpolation_function(\n                        target_time.to('sec').value\n                    ).take(0)", "                        interpolation_function(\n                        target_time.to('ms').value\n                    ).take(0)", 'C18.interp')
+mutant('C18', 'query-raw-value', PT, "                        interpolation_function(\n                        target_time.to('sec').value\n                    ).take(0)", "                        interpolation_function(\n                        target_time.value\n                    ).take(0)", 'C18.interp')
+mutant('C18', 'axis-cached-on-self', PT, "        variables = list(set(variables))\n", "        variables = list(set(variables))\n        if getattr(self, '_axis', None) is None or len(self._axis) != len(self.time):\n            self._axis = [instant.to('sec').value for instant in self.time]\n", 'C18.pure', nth=0)
+mutant('C18', 'export-load-unit-misrouted', PT, "                load_torque_unit=load_torque_unit,", "                load_torque_unit=torque_unit,", 'C18.export')
+mutant('C18', 'export-mapping-driving-uses-torque-unit', EXP, "        'driving torque': driving_torque_unit,", "        'driving torque': torque_unit,", 'C18.export')
+mutant('C18', 'export-with-index', EXP, "    data.to_csv(file_path, index=False)", "    data.to_csv(file_path)", 'C18.export')
+mutant('C18', 'export-time-raw', EXP, "instant.to(time_unit).value for instant in time_array", "instant.value for instant in time_array", 'C18.export')
+benign('C18', 'pwm-guard-merged', PT, "                if 'pwm' in variables:\n                    interpolation_function = interp1d(\n                        x=[instant.to('sec').value for instant in self.time],\n                        y=element.time_variables['pwm']\n                    )", "                if 'pwm' in variables and True:\n                    interpolation_function = interp1d(\n                        x=[instant.to('sec').value for instant in self.time],\n                        y=element.time_variables['pwm']\n                    )")
